@@ -112,7 +112,17 @@ pub fn opts_of(opt: u8) -> Opts {
     o.insert_code = opt & 4 != 0;
     o.signed_chars = opt & 8 != 0;
     o.filename = "main.c".into();
+    // the files that inputs may include (headers, assembler files, one without final newline)
+    o.include_dirs = vec![report::verif_root().join("corpus/include").to_string_lossy().to_string()];
     o
+}
+
+/// the files of /verif/corpus/include with their number of lines
+pub const INCLUDABLE: [&str; 4] = ["c16_defs.h", "c16_code.asm", "c16_data.inc", "c16_noeol.h"];
+
+fn include_lines(name: &str) -> Option<u32> {
+    let t = std::fs::read_to_string(report::verif_root().join("corpus/include").join(name)).ok()?;
+    Some(t.split('\n').count() as u32)
 }
 
 pub struct Worker {
@@ -404,6 +414,35 @@ pub fn gen_case(g: &mut G, corpus: &[String], cfg: &GenCfg) -> Case {
         t.push_str(&format!("char v;\nvoid main()\n{{\n  v = K{} + K{};\n}}\n", 10 + g.below(60), 90 + g.below(5)));
         return Case { text: t, opt: g.below(4) as u8, mutations: muts };
     }
+    if g.chance(1, 40) {
+        // an input that includes a header, an assembler file or a file without final newline, and ends with
+        // a line that makes the compiler report something (the line tables must cover the whole text)
+        let inc = *g.pick(&INCLUDABLE);
+        let mut t = String::new();
+        if g.chance(1, 2) {
+            t.push_str("char before;\n");
+        }
+        t.push_str(&format!("#include \"{}\"\n", inc));
+        let base = sem::gen_case(g, cfg, 0, &[1], false).source();
+        if g.chance(1, 2) {
+            t.push_str(&base);
+        } else {
+            t.push_str("char v;\nvoid main()\n{\n  v = 1;\n}\n");
+        }
+        let tail = *g.pick(&[
+            "void zz1() { X = 300; }",
+            "void zz2() { undeclared_name = 1; }",
+            "void zz3() { X = 1; }",
+            "void zz4() { v = 1 +; }",
+            "char zz5[2] = {1, 2, 3};",
+            "void zz6() { Y = 70000; }",
+        ]);
+        t.push_str(tail);
+        if g.chance(1, 2) {
+            t.push('\n');
+        }
+        return Case { text: t, opt: g.below(16) as u8, mutations: vec![format!("includes {}", inc), format!("last line `{}`", tail)] };
+    }
     if g.chance(1, 150) {
         // deep nesting (the parser and the generator are recursive): 50 to 500 levels, far below the
         // few thousand levels at which the unchanged compiler runs out of stack (known finding)
@@ -535,6 +574,9 @@ pub fn check(case: &Case, st: &mut Stats, known: &Known) -> Result<(), String> {
     if case.mutations.iter().any(|m| m.contains("levels of nested")) {
         st.count("deep_nesting_inputs");
     }
+    if case.mutations.iter().any(|m| m.starts_with("includes ")) {
+        st.count("inputs_with_an_included_file");
+    }
     if include_escapes(&case.text) {
         st.count("filtered:include_outside_sandbox");
         return Ok(());
@@ -561,7 +603,8 @@ pub fn check(case: &Case, st: &mut Stats, known: &Known) -> Result<(), String> {
         Answer::ErrNoLoc(_) => st.count("result:error_without_location_variant"),
         Answer::Err { file, line, msg } => {
             st.count("result:located_error");
-            if file != "main.c" || line < 1 || line > nlines {
+            let in_include = INCLUDABLE.contains(&file.as_str()) && include_lines(&file).map(|n| line >= 1 && line <= n).unwrap_or(false);
+            if !in_include && (file != "main.c" || line < 1 || line > nlines) {
                 return Err(format!(
                     "C16-location: error `{}` located at {}:{} but the input is main.c with {} lines",
                     msg, file, line, nlines
